@@ -12,10 +12,11 @@ Open Scope string_scope.
 (* ------------------------------------------------------------------ Go *)
 (* 1. EVERY Go file -- any number of struct / interface / other type declarations in any order
       relative to their methods, functions with or without body, grouped names, statements
-      nested in if / else / blocks -- is listed exactly: all six clauses of the decider hold on
+      nested in if / else / blocks / function literals passed as arguments, to any depth -- is listed exactly: all six clauses of the decider hold on
       the model's output.  Decidable hypotheses: distinct type names, distinct function names,
       distinct method names per receiver type, call statements name their function by an
-      identifier other than func/type and returned calls carry no selector argument, import
+      identifier other than func/type and returned calls carry no selector argument, no selector
+      call is deferred directly inside a function literal (open finding D-C20-lit-defer), import
       paths without the module name inside.  Receiver types need not be declared in the file. *)
 Theorem C20_go_decls_exact : forall f,
     nodup_b (type_names f) = true ->
@@ -107,6 +108,28 @@ Print Assumptions C20_go_grouped_names_exact.
 Example C20_go_call_in_if_exact : go_verdict ex_call_in_if (go_front ex_call_in_if) = [].
 Proof. exact go_call_in_if_exact. Qed.
 Print Assumptions C20_go_call_in_if_exact.
+
+(* a function literal passed as an argument: the statements inside it are statements of the function (calls, a deferred
+   local call, a nested literal), each selector call listed once and before the call that takes the literal *)
+Example C20_go_call_lit_exact :
+  go_verdict ex_call_lit (go_front ex_call_lit) = [] /\
+  (exists o, go_front ex_call_lit = GOk o /\
+             map (fun fn => map (fun c => (oc_node c, oc_fn c)) (of_calls fn)) (obs_funcs o)
+             = [[("cleanup", ""); ("cleanup", ""); ("fmt", "Println"); ("wg", "Add"); ("wg", "Done"); ("fmt", "Sscan");
+                 ("wg", "Go"); ("wg", "Wait")]]).
+Proof. exact go_call_lit_exact. Qed.
+Print Assumptions C20_go_call_lit_exact.
+
+(* open finding D-C20-lit-defer: the clause "each call written as a statement exactly once" is FALSE of the faithful
+   model for a selector call deferred directly inside a function literal (the witness, replayed on the implementation,
+   is what the check prints as KNOWN-FINDING); theorem 1 excludes exactly this shape (lit_quiet_b inside stmt_plain_b) *)
+Theorem C20_go_lit_defer_refuted :
+  go_verdict ex_lit_defer (go_front ex_lit_defer) = ["go_calls"] /\
+  (exists o, go_front ex_lit_defer = GOk o /\
+             map (fun fn => map (fun c => (oc_node c, oc_fn c)) (of_calls fn)) (obs_funcs o)
+             = [[("fmt", "Println"); ("fmt", "Println"); ("each", "")]]).
+Proof. exact go_lit_defer_refuted. Qed.
+Print Assumptions C20_go_lit_defer_refuted.
 
 (* ------------------------------------------------------------------ Python *)
 (* 6. EVERY module -- classes and defs nested in each other in any way and to any depth,
